@@ -4,6 +4,8 @@ from __future__ import annotations
 import re
 from pathlib import Path
 
+import stage_ana
+import stage_det
 import stage_disc
 import stage_doc
 import stage_e2e
@@ -33,14 +35,21 @@ def spec(prop: str, stages, extra_modules=(), extra_theorems=(), only=None):
 T = "StubGen.Theorems.Tables"
 
 PROPS = {
+    "C01": spec("C01", [stage_gen.run, stage_ana.run, stage_e2e.run]),
+    "C03": spec("C03", [stage_gen.run, stage_ana.run, stage_e2e.run]),
+    "C04": spec("C04", [stage_gen.run, stage_ana.run, stage_e2e.run]),
+    "C17": spec("C17", [stage_gen.run, stage_e2e.run]),
     "C02": spec("C02", [stage_names.run, stage_gen.run, stage_e2e.run], [T],
                 ["StubGen.Tables.keywords_escaped", "StubGen.Tables.escape_table_exact"]),
-    "C05": spec("C05", [stage_gen.run, stage_e2e.run], [T], ["StubGen.Tables.builtin_names"]),
-    "C06": spec("C06", [stage_gen.run, stage_e2e.run]),
-    "C07": spec("C07", [stage_gen.run, stage_e2e.run]),
+    "C05": spec("C05", [stage_gen.run, stage_ana.run, stage_e2e.run], [T], ["StubGen.Tables.builtin_names"]),
+    "C06": spec("C06", [stage_gen.run, stage_ana.run, stage_e2e.run]),
+    "C07": spec("C07", [stage_gen.run, stage_ana.run, stage_e2e.run]),
+    "C08": spec("C08", [stage_det.run, stage_ana.run, stage_gen.run]),
     "C09": spec("C09", [stage_names.run, stage_gen.run], [T], ["StubGen.Tables.name_annotation_form"]),
     "C10": spec("C10", [stage_gen.run, stage_e2e.run]),
+    "C12": spec("C12", [stage_ana.run, stage_e2e.run]),
     "C13": spec("C13", [stage_doc.run, stage_gen.run, stage_e2e.run]),
+    "C14": spec("C14", [stage_ana.run, stage_e2e.run]),
     "C15": spec("C15", [stage_disc.run], [T], ["StubGen.Tables.excluded_dirs"]),
     "C16": spec("C16", [stage_gen.run]),
     "C19": spec("C19", [stage_types.run], [T], ["StubGen.Tables.type_kinds"]),
